@@ -415,10 +415,21 @@ def init_registry():
         g = ip.ghost['init']
         return {'@facts': [k >= 0], 'influences': Seq(k, lambda i: ite(i == 0, g['T0'], uf('delta4', InflF(i))), 'list')}
     R.invariants[('backends.tempo_backend.BaseTempoBackend.initialize_mps_mpo', 0)] = LoopInv(template, 'init-loop')
+
+    @model
+    def m_zeros(ip, args, kw):
+        return z3.Const('scattered_dk0_tensor', V)
+    R.lib_models['numpy.zeros'] = m_zeros
+
+    def scatter_template(ip, frame, k):
+        # the scatter loop of the degeneracy-reduced dk=0 tensor: element stores into an opaque array
+        # (its content is deg/scatter, not tracked here)
+        return {'@facts': [k >= 0]}
+    R.invariants[('backends.tempo_backend.BaseTempoBackend.initialize_mps_mpo', 1)] = LoopInv(scatter_template, 'scatter-loop')
     return R
 
 
-def scen_init(K_none):
+def scen_init(K_none, deg=False):
     def scen(ip, repo):
         K = None if K_none else Int('dkmax')
         if K is not None:
@@ -431,16 +442,25 @@ def scen_init(K_none):
             return r
         U = Vc('unitary')
         ip.assume(U != NONE)
+        degmaps = None
+        if deg:
+            nsq = Int('dim') * Int('dim')
+            degmaps = [Seq(nsq, (lambda f: lambda j: f(j))(z3.Function('north_map', IntS, IntS)), 'ndarray'),
+                       Seq(nsq, (lambda f: lambda j: f(j))(z3.Function('west_map', IntS, IntS)), 'ndarray')]
+            ip.assume(Int('dim') >= 1)
         o = mkobj(repo, 'backends.tempo_backend.BaseTempoBackend', _initial_state=Vc('rho0'), _unitary_transform=U, _sum_north=Vc('sn'),
-                  _dkmax=K, _influence=influence, _degeneracy_maps=None, _dim=Int('dim'))
+                  _dkmax=K, _influence=influence, _degeneracy_maps=degmaps, _dim=Int('dim'))
         sud = uf('left_right_super', uf('attr_T', uf('meth_conjugate', U)), U)
         su = uf('left_right_super', U, uf('attr_T', uf('meth_conjugate', U)))
         d = uf('delta4', InflF(0))
+        if deg:
+            d = z3.Const('scattered_dk0_tensor', V)        # whatever the scatter loop builds (deg/scatter)
+            ip.ghost['scatter'] = d
         t = uf('lib_numpy_dot', uf('lib_numpy_moveaxis', d, z3.IntVal(1), z3.IntVal(-1)), sud)
         t = uf('lib_numpy_moveaxis', t, z3.IntVal(-1), z3.IntVal(1))
         T0 = uf('lib_numpy_dot', t, uf('attr_T', su))
         ip.ghost['init'] = {'T0': T0}
-        return {'args': [o], 'o': o, 'K': K, 'T0': T0, 'inputs': {'dkmax': K if K is not None else -1}}
+        return {'args': [o], 'o': o, 'K': K, 'T0': T0, 'deg': deg, 'inputs': {'dkmax': K if K is not None else -1, 'degeneracy_maps': deg}}
     return scen
 
 
@@ -463,8 +483,9 @@ def targets(tier='quick'):
     T = _t_step(tier)
     RI = init_registry()
     for kn in (False, True):
-        T.append(Target('tempo/init[dkmax=%s]' % ('None' if kn else 'K'), 'backends.tempo_backend.BaseTempoBackend.initialize_mps_mpo',
-                        scen_init(kn), post_init, RI, PROP, replay=rp))
+        for dg in (False, True):
+            T.append(Target('tempo/init[dkmax=%s,degeneracy_maps=%s]' % ('None' if kn else 'K', dg), 'backends.tempo_backend.BaseTempoBackend.initialize_mps_mpo',
+                            scen_init(kn, dg), post_init, RI, PROP, replay=rp))
     return T
 
 
